@@ -1,0 +1,39 @@
+//go:build verif
+// +build verif
+
+package core
+
+import (
+	"com.tuntun.rangers/node/src/common"
+	"com.tuntun.rangers/node/src/middleware/types"
+	"com.tuntun.rangers/node/src/storage/account"
+)
+
+// Verification hooks H4 (build tag verif only): thin exports of unexported
+// entry points; no behaviour of their own.
+
+// VerifExecuteBlock runs the block executor exactly as the chain does.
+func VerifExecuteBlock(accountdb *account.AccountDB, block *types.Block, situation string) (common.Hash, []common.Hash, []*types.Transaction, []*types.Receipt) {
+	return newVMExecutor(accountdb, block, situation).Execute()
+}
+
+// VerifGroupRemoveLast removes the current last group, as the group fork switch does.
+func VerifGroupRemoveLast() bool {
+	return groupChainImpl.remove(groupChainImpl.lastGroup)
+}
+
+// VerifGroupReinit re-runs the group chain initialisation over the same store (restart).
+func VerifGroupReinit() {
+	// the prefixed group store shares the process-wide LevelDB instance; only the
+	// private joined-group store has to be released before it is opened again
+	if groupChainImpl != nil && groupChainImpl.joinedGroups != nil {
+		groupChainImpl.joinedGroups.Close()
+	}
+	groupChainImpl = nil
+	initGroupChain()
+}
+
+// VerifCalcReceiptsTree exposes the receipts commitment used by header verification.
+func VerifCalcReceiptsTree(receipts types.Receipts) common.Hash {
+	return calcReceiptsTree(receipts)
+}
